@@ -481,7 +481,10 @@ impl EmitRun {
         };
         let dir = w.scratch.join(format!("emit-{}", w.shard));
         let main_rs = runner::driver_source(&c.model, &c.pay);
-        let bin = match runner::compile(&dir, &text, &main_rs, false) {
+        // every third emitted module is compiled like a release build: debug assertions and overflow checks off
+        let release_like = idx % 3 == 1;
+        w.count(if release_like { "emitted-modules-compiled:debug-assertions-off" } else { "emitted-modules-compiled:debug-assertions-on" });
+        let bin = match runner::compile_with(&dir, &text, &main_rs, false, release_like) {
             CompileResult::Ok(b) => b,
             CompileResult::Failed(stderr) => {
                 // a C05 observation; for this engine the grammar is not observed
